@@ -674,13 +674,21 @@ class BaseTaskPool:
                 return_exceptions=return_exceptions,
             )
         self._meta_tasks_cancelled.clear()
+        # Only the tasks awaited here may be forgotten afterwards; others may
+        # have ended/been cancelled in the meantime and may still be busy
+        # with their callbacks.
+        ended = dict(self._tasks_ended)
+        cancelled = dict(self._tasks_cancelled)
         await gather(
-            *self._tasks_ended.values(),
-            *self._tasks_cancelled.values(),
+            *ended.values(),
+            *cancelled.values(),
             return_exceptions=return_exceptions,
         )
-        self._tasks_ended.clear()
-        self._tasks_cancelled.clear()
+        for task_id in ended:
+            self._tasks_ended.pop(task_id, None)
+        for task_id in cancelled:
+            self._tasks_cancelled.pop(task_id, None)
+            self._tasks_ended.pop(task_id, None)
 
     async def gather_and_close(
         self,
